@@ -457,7 +457,9 @@ class API:
                 Returns:
                     the same context. Generation commands can be chained.
                 """
-                target = self._generate_targets[target_name]
+                target = self._generate_targets.get(target_name)
+                if target is None:
+                    raise UnknownTargetException(target_name)
                 target.generate(self.defs, clean=clean, copy_support_lib_sources=self._config.support_lib_sources)
                 return self
 
